@@ -245,6 +245,10 @@ func Inbound(a *Action, peerID, ourID string, ts string) []byte {
 		// OnBehalfOfCompID / SubID (115, 116) - their tags end in the digits of BeginSeqNo (7) and EndSeqNo (16)
 		fields = []Field{F("35", ty), F("49", peerID), F("56", ourID), F("57", "DESK7"), F("97", "N"), F("115", "HUB"), F("116", "SUB16")}
 	}
+	if a.Extra == 11 {
+		// PossDupFlag=Y in the header (a counterparty that retransmits): it changes nothing about whether the message is valid
+		fields = []Field{F("35", ty), F("43", "Y"), F("49", peerID), F("56", ourID)}
+	}
 	if a.Extra == 3 {
 		fields = []Field{F("35", ty), F("56", ourID), F("49", peerID)}
 	}
